@@ -7,6 +7,7 @@ CONSTANTS
   Persistent = TRUE
   StartupScrub = FALSE
   EraseOnLookup = FALSE
+  CleanFailedWrite = TRUE
   ListRaw = FALSE
 INVARIANTS C04_FileImpliesLive C04_NoDeadFileAfterSweep
 VIEW View
